@@ -22,6 +22,7 @@
 import Sipsp.Properties.C20
 import Sipsp.Proofs.AuditExamples
 import Sipsp.Proofs.IP6Spec
+import Sipsp.Proofs.Leftovers2
 
 namespace Sipsp.C20
 open Sipsp
@@ -106,5 +107,10 @@ theorem ip6_value_cut_eq : type_of% @Sipsp.I6G.valueCut_eq := @Sipsp.I6G.valueCu
 
 /-- the value of a complete address: eight words, each below 2^16 -/
 theorem ip6_value_words : type_of% @Sipsp.I6G.value_words := @Sipsp.I6G.value_words
+
+/-! ### ContainsIP6 reports the first accepted candidate in its explicit trial order (proved in `Sipsp.Proofs.Leftovers2`) -/
+
+/-- **ContainsIP6 reports the first accepted candidate in trial order** -/
+theorem ip6_contains_first_in_order : type_of% @Sipsp.lo2_i6_contains_first := @Sipsp.lo2_i6_contains_first
 
 end Sipsp.C20
